@@ -763,6 +763,7 @@ func (p *prop) Generate(rng *core.Rand, tier string, emit func(string)) {
 	}
 	if p.envErr == nil {
 		p.genKeys(rng.Fork(), emit)
+		genQuic(rng.Fork(), emit, map[string]int{"quick": 12, "thorough": 120, "search": 40}[tier])
 	}
 	frng := rng.Fork()
 	for i := 0; i < nScen; i++ {
@@ -814,6 +815,9 @@ func (p *prop) Run(line string) core.Outcome {
 	f := strings.Fields(line)
 	if len(f) > 0 && f[0] == "key" {
 		return p.runKey(f)
+	}
+	if len(f) > 0 && f[0] == "quic" {
+		return p.runQuic(f)
 	}
 	if len(f) != 6 || f[0] != "seq" {
 		return core.Outcome{Impl: "bad-op", Tags: []string{"trivial", "bad-op"}}
